@@ -37,3 +37,16 @@ func vfRefAny(patterns []string, name string) bool {
 	}
 	return false
 }
+
+type vfNullPrinter struct{}
+
+func (vfNullPrinter) Printf(string, ...any)               {}
+func (vfNullPrinter) PrefixPrintf(string, string, ...any) {}
+
+func vfTrieOrEmpty(p []string) *testTrie {
+	tr := parsePatterns(p)
+	if tr == nil {
+		tr = &testTrie{}
+	}
+	return tr
+}
